@@ -39,6 +39,9 @@ pub struct Config {
     pub chains: BTreeMap<u64, String>,
     /// R9: the function returns `impl Iterator<Item = T>`; print it as returning `Vec<T>` and collect the tail expression
     pub iter_to_vec: bool,
+    /// R26: the names of the function's local binders (let / closure / for / match patterns, in source order) as recorded when the
+    /// recipe was written; binders that were renamed since are renamed back (alpha-conversion) so that the recipe's text still applies
+    pub binders: Option<Vec<String>>,
     /// type ascriptions added to un-annotated `let NAME = ..` bindings (first binding of that name), checked by rustc
     pub let_types: Vec<(String, String)>,
     /// R10: expand derive(Clone) of a fieldless enum into its definitional impl with `ensures r == *self` (verified by Verus)
@@ -189,6 +192,7 @@ impl Config {
             }
         }
         c.iter_to_vec = item["iter_to_vec"].as_bool().unwrap_or(false);
+        c.binders = item["binders"].as_array().map(|a| a.iter().filter_map(|x| x.as_str().map(|s| s.to_string())).collect());
         c.expand_clone = item["expand_clone"].as_bool().unwrap_or(false);
         c.expand_default = item["expand_default"].as_bool().unwrap_or(false);
         c.inject_use = strs(&item["inject_use"]);
@@ -229,6 +233,8 @@ pub struct FnInfo {
     pub anchors: Vec<String>,
     pub fingerprint: String,
     pub lifted_text: Vec<String>,
+    /// R26: the local binders of the function as found in the source (before any renaming)
+    pub binders: Vec<String>,
 }
 
 // ------------------------------------------------------------------------------------------
@@ -2446,6 +2452,166 @@ fn drop_generics_sig(g: &mut syn::Generics, drop: &[String], counts: &mut Counts
     }
 }
 
+// ------------------------------------------------------------------------------------------
+// R26 : binder names normalised to the ones the recipe was written against (alpha-conversion)
+// ------------------------------------------------------------------------------------------
+
+/// the identifiers bound by patterns inside the body (let / closure parameter / for / match / if-let), in source order.
+/// Upper-case initial = a constant or a unit variant in pattern position (syn cannot tell them from a binder): skipped.
+fn collect_binders(b: &syn::Block) -> Vec<String> {
+    struct V(Vec<String>);
+    impl<'ast> syn::visit::Visit<'ast> for V {
+        fn visit_pat_ident(&mut self, p: &'ast syn::PatIdent) {
+            let n = p.ident.to_string();
+            if n.chars().next().map(|c| c.is_lowercase() || c == '_').unwrap_or(false) && n != "self" {
+                self.0.push(n);
+            }
+            syn::visit::visit_pat_ident(self, p);
+        }
+        fn visit_item(&mut self, _i: &'ast syn::Item) {}
+    }
+    let mut v = V(vec![]);
+    syn::visit::Visit::visit_block(&mut v, b);
+    v.0
+}
+
+fn all_idents(ts: TokenStream, out: &mut std::collections::BTreeSet<String>) {
+    for t in ts {
+        match t {
+            proc_macro2::TokenTree::Ident(i) => { out.insert(i.to_string()); }
+            proc_macro2::TokenTree::Group(g) => all_idents(g.stream(), out),
+            _ => {}
+        }
+    }
+}
+
+/// current name -> recorded name, when the two binder lists have the same shape and the renaming is a consistent, capture-free
+/// alpha-conversion: each current name maps to one recorded name, no two names are merged, and a recorded name that is introduced is
+/// not used for anything else in the function.  None = leave the function as it is (the recipe decides whether it still applies).
+fn binder_renaming(cur: &[String], rec: &[String], f: &syn::ItemFn) -> Option<BTreeMap<String, String>> {
+    if cur.len() != rec.len() {
+        return None;
+    }
+    let mut map: BTreeMap<String, String> = BTreeMap::new();
+    for (c, r) in cur.iter().zip(rec.iter()) {
+        match map.get(c) {
+            Some(prev) if prev != r => return None,
+            _ => { map.insert(c.clone(), r.clone()); }
+        }
+    }
+    // injective
+    let mut targets = std::collections::BTreeSet::new();
+    for r in map.values() {
+        if !targets.insert(r.clone()) {
+            return None;
+        }
+    }
+    map.retain(|c, r| c != r);
+    if map.is_empty() {
+        return Some(map);
+    }
+    // freshness: a name that is introduced must not occur anywhere in the function unless it is itself renamed away
+    let mut used = std::collections::BTreeSet::new();
+    all_idents(f.to_token_stream(), &mut used);
+    for r in map.values() {
+        if used.contains(r) && !map.contains_key(r) {
+            return None;
+        }
+    }
+    // parameters are not binders of the body: a binder that shadows a parameter name is left alone
+    for arg in f.sig.inputs.iter() {
+        if let syn::FnArg::Typed(pt) = arg {
+            if let syn::Pat::Ident(pi) = &*pt.pat {
+                if map.contains_key(&pi.ident.to_string()) {
+                    return None;
+                }
+            }
+        }
+    }
+    Some(map)
+}
+
+struct RenamePass<'a> {
+    map: &'a BTreeMap<String, String>,
+}
+
+impl<'a> RenamePass<'a> {
+    fn rn(&self, i: &syn::Ident) -> Option<syn::Ident> {
+        self.map.get(&i.to_string()).map(|n| syn::Ident::new(n, i.span()))
+    }
+    /// inside a macro: `#name` of the quote family, and plain occurrences elsewhere (not after `.`, not before `!` / `::` / `:`-less `=`)
+    fn rename_tokens(&self, ts: TokenStream, quote_like: bool) -> TokenStream {
+        let toks: Vec<proc_macro2::TokenTree> = ts.into_iter().collect();
+        let mut out: Vec<proc_macro2::TokenTree> = Vec::new();
+        for (k, t) in toks.iter().enumerate() {
+            match t {
+                proc_macro2::TokenTree::Group(g) => {
+                    let inner = self.rename_tokens(g.stream(), quote_like);
+                    let mut ng = proc_macro2::Group::new(g.delimiter(), inner);
+                    ng.set_span(g.span());
+                    out.push(proc_macro2::TokenTree::Group(ng));
+                }
+                proc_macro2::TokenTree::Ident(i) => {
+                    let prev_is = |c: char| k > 0 && matches!(&toks[k - 1], proc_macro2::TokenTree::Punct(p) if p.as_char() == c);
+                    let next_is = |c: char| matches!(toks.get(k + 1), Some(proc_macro2::TokenTree::Punct(p)) if p.as_char() == c);
+                    let ok = if quote_like { prev_is('#') } else { !prev_is('.') && !next_is('!') && !(next_is(':') && matches!(toks.get(k + 2), Some(proc_macro2::TokenTree::Punct(p)) if p.as_char() == ':')) };
+                    match (ok, self.rn(i)) {
+                        (true, Some(n)) => out.push(proc_macro2::TokenTree::Ident(n)),
+                        _ => out.push(t.clone()),
+                    }
+                }
+                _ => out.push(t.clone()),
+            }
+        }
+        out.into_iter().collect()
+    }
+}
+
+impl<'a> VisitMut for RenamePass<'a> {
+    fn visit_pat_ident_mut(&mut self, p: &mut syn::PatIdent) {
+        if let Some(n) = self.rn(&p.ident) {
+            p.ident = n;
+        }
+        visit_mut::visit_pat_ident_mut(self, p);
+    }
+    fn visit_expr_path_mut(&mut self, p: &mut syn::ExprPath) {
+        if p.qself.is_none() && p.path.leading_colon.is_none() && p.path.segments.len() == 1 && p.path.segments[0].arguments.is_none() {
+            if let Some(n) = self.rn(&p.path.segments[0].ident) {
+                p.path.segments[0].ident = n;
+            }
+        }
+        visit_mut::visit_expr_path_mut(self, p);
+    }
+    fn visit_field_value_mut(&mut self, fv: &mut syn::FieldValue) {
+        // `S { name }` is `S { name: name }`: the member keeps its name, the value is the renamed binder
+        if fv.colon_token.is_none() {
+            if let syn::Member::Named(m) = &fv.member {
+                if self.map.contains_key(&m.to_string()) {
+                    fv.colon_token = Some(Default::default());
+                }
+            }
+        }
+        visit_mut::visit_field_value_mut(self, fv);
+    }
+    fn visit_field_pat_mut(&mut self, fp: &mut syn::FieldPat) {
+        // `S { name }` in a pattern binds `name`: written in full so that the member keeps its name
+        if fp.colon_token.is_none() {
+            if let syn::Member::Named(m) = &fp.member {
+                if self.map.contains_key(&m.to_string()) {
+                    fp.colon_token = Some(Default::default());
+                }
+            }
+        }
+        visit_mut::visit_field_pat_mut(self, fp);
+    }
+    fn visit_macro_mut(&mut self, m: &mut syn::Macro) {
+        let name = m.path.segments.last().map(|s| s.ident.to_string()).unwrap_or_default();
+        let quote_like = name == "quote" || name == "quote_spanned" || name == "parse_quote";
+        m.tokens = self.rename_tokens(m.tokens.clone(), quote_like);
+    }
+    fn visit_item_mut(&mut self, _i: &mut syn::Item) {}
+}
+
 fn fingerprint(sig: &syn::Signature) -> String {
     let mut parts = Vec::new();
     for a in &sig.inputs {
@@ -2498,6 +2664,17 @@ pub fn apply_to_fn(
     f.attrs.clear();
     if let Some(n) = &cfg.rename_fn {
         f.sig.ident = syn::Ident::new(n, Span::call_site());
+    }
+    // R26
+    let found_binders = collect_binders(&f.block);
+    if let Some(rec) = &cfg.binders {
+        if let Some(map) = binder_renaming(&found_binders, rec, f) {
+            if !map.is_empty() {
+                let mut p = RenamePass { map: &map };
+                p.visit_block_mut(&mut f.block);
+                bump(counts, "R26.binders_renamed_back");
+            }
+        }
     }
     // local `use` items: dropped, replaced by the recipe's (type-checked) ones
     {
@@ -2673,6 +2850,7 @@ pub fn apply_to_fn(
     }
     // loops / closures
     let mut info = FnInfo::default();
+    info.binders = found_binders;
     {
         let mut p = LoopPass { lazy_vecs: vec![], cfg, counts, chains_seen: 0, loops: 0, closures: 0, closure_params: vec![], lifted: vec![], err: None };
         p.visit_block_mut(&mut f.block);
